@@ -71,6 +71,26 @@ func main() {
 			panic(err)
 		}
 		r2 := back.(leaves.BurndownResult)
+		// Go-side statement (oracle): same dimensions, negative history cells clamped to zero, everything else equal
+		for i := range m {
+			bad := len(r2.GlobalHistory) != len(m) || len(r2.GlobalHistory[i]) != len(m[i])
+			for j := 0; !bad && j < len(m[i]); j++ {
+				want := m[i][j]
+				if want < 0 {
+					want = 0
+				}
+				if r2.GlobalHistory[i][j] != want {
+					bad = true
+				}
+			}
+			if bad {
+				hv.Fail("burndown-roundtrip", fmt.Sprintf(`{"matrix":%q}`, fmt.Sprint(m)), fmt.Sprintf("project matrix reads back as %v", r2.GlobalHistory))
+				break
+			}
+		}
+		if fmt.Sprint(r2.PeopleMatrix) != fmt.Sprint(pm) {
+			hv.Fail("burndown-roundtrip", fmt.Sprintf(`{"people_matrix":%q}`, fmt.Sprint(pm)), fmt.Sprintf("interaction matrix reads back as %v", r2.PeopleMatrix))
+		}
 		for i := range m {
 			fmt.Fprintf(wo, "row %s\n", join(m[i]))
 			fmt.Fprintf(wi, "%s\n", show(r2.GlobalHistory[i]))
